@@ -65,6 +65,12 @@ pub fn scenarios(tier: Tier) -> Vec<Scenario> {
             Op::Dispatch(Act::new(id).keep(if keep_of(p, q) { all } else { 0 }).eff(0, if with_eff && q == 0 { EFF_TASK } else { EFF_NONE }))
         });
         let mut main = vec![];
+        let transient = pat == "oddK" && cap == 1;
+        if transient {
+            // leaves during the run: the whole-run subscribers must not notice
+            main.push(Op::AddSub { id: 9, gated: false, reads: false });
+            prog = prog.thread("leaver", vec![Op::Unsub(9)]);
+        }
         let subs: Vec<u32> = (1..=nsubs).collect();
         for &s in &subs {
             main.push(Op::AddSub { id: s, gated: false, reads: false });
